@@ -51,5 +51,8 @@ Spec == Init /\ [][Next]_vars
 Text == CASE tpl.where = "row" -> Header \o "    " \o tpl.pre \o fill \o tpl.post \o RowCtx \o "\n" \o Data \o Decl
           [] tpl.where = "let" -> Header \o "    k * x <= 9\n" \o Data \o tpl.pre \o fill \o tpl.post \o Decl
           [] tpl.where = "decl" -> Header \o "    x <= 9\n" \o Data \o Decl \o tpl.pre \o fill \o tpl.post
-Emit == phase = "done" => PrintT(<<"CASE", ToJson([text |-> Text, pos |-> tpl.pre \o "@" \o tpl.post, where |-> tpl.where, filler |-> fill])>>)
+\* what the skeleton declares: decision variables and indexed families (the trace specification
+\* needs them to tell a missing member of a declared family from an undeclared name)
+Emit == phase = "done" => PrintT(<<"CASE", ToJson([text |-> Text, pos |-> tpl.pre \o "@" \o tpl.post, where |-> tpl.where, filler |-> fill,
+                                                    decision |-> <<"x", "p", "w">>, families |-> <<"x_", "z_", "w_">>])>>)
 =============================================================================
